@@ -160,6 +160,8 @@ let op_of (x : sexp) : op =
   | L (A "whitelist" :: names) -> OpWhitelist (List.map str names)
   | L [A "cv"; name; e] -> OpCV (str name, expr_of e)
   | L [A "finalize"] -> OpFinalize
+  | L [A "setdefaults"; L (A "params" :: ps)] ->
+      OpSetDefaults (List.map (function L [k; A v] -> (str k, q_of_string v) | _ -> failwith "bad params") ps)
   | _ -> failwith "bad op"
 
 (* ---------------------------------------------------------------- numeric instance *)
